@@ -1513,11 +1513,15 @@ func c20EndToEnd(r *vfkit.R, e *vfEnv, rng *rand.Rand) {
 				return map[string]any{"topic": tn, "desc": map[string]any{"public": map[string]any{"fn": "renamed", "photo": map[string]any{"ref": "https://example.com/x.png"}},
 					"private": map[string]any{"arch": true}, "defacs": map[string]any{"auth": "JRWP", "anon": "N"}}}
 			}},
-			{"set-tags", "set", func(tn string) map[string]any { return map[string]any{"topic": tn, "tags": []any{"Gamma", "delta", "delta"}} }},
+			{"set-tags", "set", func(tn string) map[string]any {
+				return map[string]any{"topic": tn, "tags": []any{"Gamma", "delta", "delta"}}
+			}},
 			{"set-sub-other", "set", func(tn string) map[string]any {
 				return map[string]any{"topic": tn, "sub": map[string]any{"user": bob.uid.UserId(), "mode": "JRP"}}
 			}},
-			{"set-sub-self", "set", func(tn string) map[string]any { return map[string]any{"topic": tn, "sub": map[string]any{"mode": "JRWPASO"}} }},
+			{"set-sub-self", "set", func(tn string) map[string]any {
+				return map[string]any{"topic": tn, "sub": map[string]any{"mode": "JRWPASO"}}
+			}},
 			{"del-ranges", "del", func(tn string) map[string]any {
 				return map[string]any{"topic": tn, "what": "msg", "delseq": []any{map[string]any{"low": 5, "hi": 7}, map[string]any{"low": 9}}}
 			}},
@@ -1526,7 +1530,9 @@ func c20EndToEnd(r *vfkit.R, e *vfEnv, rng *rand.Rand) {
 			}},
 			{"note-recv", "note", func(tn string) map[string]any { return map[string]any{"topic": tn, "what": "recv", "seq": 12} }},
 			{"note-read", "note", func(tn string) map[string]any { return map[string]any{"topic": tn, "what": "read", "seq": 11} }},
-			{"del-sub", "del", func(tn string) map[string]any { return map[string]any{"topic": tn, "what": "sub", "user": bob.uid.UserId()} }},
+			{"del-sub", "del", func(tn string) map[string]any {
+				return map[string]any{"topic": tn, "what": "sub", "user": bob.uid.UserId()}
+			}},
 			{"leave", "leave", func(tn string) map[string]any { return map[string]any{"topic": tn} }},
 		}
 		// fresh pair of groups so that both start from identical rows
